@@ -9,16 +9,17 @@ from ..common import d42  # noqa: F401
 from th import PathHolder
 from d42.validation import Formatter
 
-MODULE = "D42.Props.C03Facts"
+MODULE = "D42.Props.C03Sub"
 THEOREMS = ["errors_located", "errors_true", "siblings_disjoint_list", "siblings_disjoint_dict", "shownPath_extends",
             "validateP_located", "validateAllP_located", "validateElemsP_located", "windowsP_located",
-            "validateFieldsP_located", "validateScalar_here", "validateScalar_true", "validateP_true", "minByLen_mem"]
+            "validateFieldsP_located", "validateScalar_here", "validateScalar_true", "validateP_true", "minByLen_mem",
+            "errors_true_sub", "sub_accepts_of_plain", "errors_true_sub_example"]
 FILES = ["D42/Model/Data.lean", "D42/Model/Float.lean", "D42/Model/Validate.lean", "D42/Spec/Conforms.lean",
-         "D42/Props/C02.lean", "D42/Props/C03.lean", "D42/Props/C03Facts.lean"]
+         "D42/Props/C02.lean", "D42/Props/C03.lean", "D42/Props/C03Facts.lean", "D42/Props/C03Sub.lean"]
 
 EVIDENCE = dict(
     level="proof",
-    checker_cmd="lake build D42.Props.C03 d42model && lake env lean <#print axioms audit>",
+    checker_cmd="lake build D42.Props.C03Sub d42model && lake env lean <#print axioms audit>",
     trusted=["Lean 4.33.0 kernel; axioms ⊆ {propext, Classical.choice, Quot.sound}",
              "model paths are immutable lists (copy-on-descend by construction); the tie to the code's PathHolder "
              "discipline is the comparison of the full error multiset (kind, path, actual, parameter) on this run's cases",
@@ -178,12 +179,17 @@ def replay(path):
 
 MANIFEST = dict(
     category="proof",
-    technique="Lean 4 theorem errors_located (mutual induction, immutable paths) + error-multiset correspondence",
-    text="Theorem: every error produced by the model validator (and by the substitution validator) carries a path that "
-         "extends the caller's path and, followed from the root value, resolves to exactly the value the error reports; "
-         "tie: full error multisets (kind, path, actual, parameter) of model and code compared on generated cases; search: "
-         "every real error's path is followed with the real PathHolder operators, its stated fact re-evaluated in plain "
-         "Python and its message checked to contain the formatted path.",
-    note="Trusted: Lean kernel + standard axioms, hand model tied by sampling, codec, th.PathHolder (third-party) modelled as "
-         "an immutable list. Theorems for 'the stated fact is true' per error kind are stated in Props/C03.lean as they "
-         "are proved; message wording is not modelled (only the path it names is checked, on the real code).")
+    technique="Lean 4 theorems errors_located / errors_true / errors_true_sub (mutual inductions, immutable paths) + "
+              "error-multiset correspondence",
+    text="Theorems: every error produced by the model validator and by the substitution validator carries a path that "
+         "extends the caller's path and, followed from the root value, resolves to exactly the value the error reports "
+         "(errors_located); the fact each of the 16 error kinds states is true of that value, for both validators "
+         "(errors_true, errors_true_sub; 'no alternative matched' via sub_accepts_of_plain); errors of siblings carry "
+         "disjoint path prefixes (siblings_disjoint_list/_dict); the path a message names extends the error's path "
+         "(shownPath_extends). Tie: full error multisets (kind, path, actual, parameter) of model and code compared on "
+         "generated cases; search: every real error's path is followed with the real PathHolder operators, its stated fact "
+         "re-evaluated in plain Python, its message checked to contain the formatted path, rendering re-done to detect "
+         "mutation.",
+    note="Trusted: Lean kernel + standard axioms, hand model tied by sampling, codec, th.PathHolder (third-party) modelled "
+         "as an immutable list. Message wording is not modelled (only the path it names is, and it is checked on the real "
+         "code).")
